@@ -36,7 +36,10 @@ FILES = [c07.fspec("ML", 40, "UPPER", pat="ramp7", load=0x3000, exec_=0x3005), c
          # addresses in the zero page (their shortest hex form has two digits)
          c07.fspec("ML", 12, "LOWPAGE", pat="ramp", load=0x0080, exec_=0x00C8),
          # data and text files that are NOT flagged ASCII (stored with a length preamble on a disk)
-         c07.fspec("DATB", 40, "SCORES", "DAT", pat="ramp7"), c07.fspec("TXTB", 41, "NOTES", "TXT", pat="ramp")]
+         c07.fspec("DATB", 40, "SCORES", "DAT", pat="ramp7"), c07.fspec("TXTB", 41, "NOTES", "TXT", pat="ramp"),
+         # machine language whose 5-byte postamble (or preamble + data) straddles a sector boundary on a disk: 5 + n + 5 just past k * 256
+         c07.fspec("ML", 248, "STRADDLE", pat="ramp7", load=0x3200, exec_=0x3201), c07.fspec("ML", 2553, "STRADL2", pat="m00.p1", load=0x3300, exec_=0x3301),
+         c07.fspec("ML", 251, "SECTEDGE", pat="ramp", load=0x3400, exec_=0x3401)]
 DUP = 7
 
 
@@ -54,7 +57,8 @@ def source_sets(tier):
     yield [0, 1, DUP]
     yield [1, DUP, 0]
     for fs in ([8], [9], [10], [0, 8], [8, 9], [9, 1, 8], [10, 8, 0], [11], [0, 11], [11, 1, 5], [12], [12, 13], [13, 12, 0], [14], [14, 12],
-               [15], [0, 15], [16], [16, 1], [17], [17, 0], [18], [19], [18, 0, 19]):
+               [15], [0, 15], [16], [16, 1], [17], [17, 0], [18], [19], [18, 0, 19],
+               [20], [21], [22], [20, 0], [21, 20, 22]):
         yield fs
 
 
